@@ -162,6 +162,33 @@ class Rewriter:
                 else:
                     self.t = self.t[:mm.start()] + self.t[e:].lstrip(" ")
                 n += 1
+            elif re.match(r"#\[cfg\(debug_assertions\)\]$", attr):
+                # R15: the guarded statement / struct field / field initialiser is dropped together with the
+                # attribute (debug-only bookkeeping: checkout ids used for tracing).  Dropped text ends at the
+                # first `;` or `,` at bracket depth 0 (or before a closing brace).
+                e = bc + 1
+                j, depth = e, 0
+                while j < len(m):
+                    c = m[j]
+                    if c in "([{":
+                        depth += 1
+                    elif c in ")]}":
+                        if depth == 0:
+                            break
+                        depth -= 1
+                    elif c in ";," and depth == 0:
+                        j += 1
+                        break
+                    j += 1
+                ls = self.t.rfind("\n", 0, mm.start()) + 1
+                a0 = ls if self.t[ls:mm.start()].strip() == "" else mm.start()
+                while j < len(self.t) and self.t[j] in " \t":
+                    j += 1
+                if j < len(self.t) and self.t[j] == "\n" and a0 == ls:
+                    j += 1
+                self.t = self.t[:a0] + self.t[j:]
+                self.note("R15")
+                n += 1
             elif attr.startswith("#[cfg("):
                 raise Unsupported("unsupported construct: conditional compilation %s inside %s" % (attr, self.what))
             else:
@@ -213,6 +240,29 @@ class Rewriter:
                 j += 1
             t = t[:mm.start()] + mm.group(1) + t[mm.end():j - 1] + t[j:]
             n += 1
+        # R5b: Pin<Box<T>> -> Box<T> (an owning pinned pointer is a Box that is never moved out of);
+        #      Box::pin(e) -> Box::new(e)
+        while True:
+            mm = re.search(r"(?:std::pin::)?Pin<(Box<)", t)
+            if not mm:
+                break
+            depth, j = 1, mm.end()
+            while depth:
+                if t[j] == "<":
+                    depth += 1
+                elif t[j] == ">" and t[j - 1] != "-":
+                    depth -= 1
+                j += 1
+            # j is just past the '>' closing Box<...>; the next '>' closes Pin<
+            k2 = j
+            while t[k2] in " \n\t":
+                k2 += 1
+            if t[k2] != ">":
+                raise Unsupported("unsupported construct: Pin<Box<..>> shape in %s" % self.what)
+            t = t[:mm.start()] + t[mm.start(1):j] + t[k2 + 1:]
+            n += 1
+        t, k = re.subn(r"\bBox::pin\(", "Box::new(", t)
+        n += k
         # Pin::new(e) -> e
         while True:
             m = mask(t)
@@ -233,21 +283,21 @@ class Rewriter:
         t = self.t
         t, k = re.subn(r"(?m)^[ \t]*let\s+(?:mut\s+)?this\s*=\s*self\.project\(\)\s*;\s*\n", "", t)
         n += k
-        if k == 0 and not re.search(r"self\.project\(\)", t) and not re.search(r"self\.as_mut\(\)\.project\(\)", t):
+        if k == 0 and not re.search(r"self\.project\(\)", t) and not re.search(r"self\.as_mut\(\)\s*\.(?:project|set)\(", t):
             self.t = t
             return
         t, k = re.subn(r"(?m)^[ \t]*let\s+(?:mut\s+)?this\s*=\s*self\.as_mut\(\)\.project\(\)\s*;\s*\n", "", t)
         n += k
-        t, k = re.subn(r"\*this\.([A-Za-z_][A-Za-z0-9_]*)", r"self.\1", t)
+        t, k = re.subn(r"\*this\s*\.([A-Za-z_][A-Za-z0-9_]*)", r"self.\1", t)
         n += k
         if self.unpinned:
             # un-pinned field: `this.f` is `&mut F`, `.as_mut()` is F's own method and stays
             unp = "|".join(re.escape(f) for f in sorted(self.unpinned))
-            t, k = re.subn(r"\bthis\.(%s)\.as_mut\(\)" % unp, r"(&mut self.\1).as_mut()", t)
+            t, k = re.subn(r"\bthis\s*\.(%s)\s*\.as_mut\(\)" % unp, r"(&mut self.\1).as_mut()", t)
             n += k
-        t, k = re.subn(r"\bthis\.([A-Za-z_][A-Za-z0-9_]*)\s*\.as_mut\(\)", r"(&mut self.\1)", t)
+        t, k = re.subn(r"\bthis\s*\.([A-Za-z_][A-Za-z0-9_]*)\s*\.as_mut\(\)", r"(&mut self.\1)", t)
         n += k
-        t, k = re.subn(r"\bthis\.([A-Za-z_][A-Za-z0-9_]*)", r"(&mut self.\1)", t)
+        t, k = re.subn(r"\bthis\s*\.([A-Za-z_][A-Za-z0-9_]*)", r"(&mut self.\1)", t)
         n += k
         t, k = re.subn(r"\bself\.(?:as_mut\(\)\.)?project\(\)\.([A-Za-z_][A-Za-z0-9_]*)", r"(&mut self.\1)", t)
         n += k
@@ -255,10 +305,36 @@ class Rewriter:
         # projected again, `(&mut self.f).project().g` -> `(&mut self.f.g)`
         t, k = re.subn(r"\(&mut self\.([A-Za-z_][A-Za-z0-9_]*)\)\s*\.project\(\)\s*\.([A-Za-z_][A-Za-z0-9_]*)", r"(&mut self.\1.\2)", t)
         n += k
-        if re.search(r"\bthis\b", mask(t)) or re.search(r"\.project(?:_replace|_ref)?\(", mask(t)):
-            raise Unsupported("unsupported construct: pin projection outside R6 (enum projection / project_replace) in %s" % self.what)
+        # R6e (enum projections): matching on `x.project()` of a pin_project *enum* binds each field as
+        # `Pin<&mut F>` / `&mut F` - after R5 both are `&mut F`, i.e. exactly what matching on `&mut x` binds.
+        #   `self.as_mut().project()` (self is the enum)  -> `(&mut *self)`
+        #   `(&mut self.f).project()` (field is the enum) -> `(&mut self.f)`
+        #   projection type paths `XProj::V` -> `X::V` (from `#[pin_project(project = XProj)] enum X` in the file)
+        #   `self.as_mut().set(v)` -> `*self = v`;  `(&mut self.f).set(v)` -> `self.f = v`  (Pin::set overwrites in place)
+        ne = 0
+        t, k = re.subn(r"\bself\.as_mut\(\)\s*\.project\(\)(?!\s*\.)", "(&mut *self)", t)
+        ne += k
+        t, k = re.subn(r"\(&mut self\.([A-Za-z_][A-Za-z0-9_]*)\)\s*\.project\(\)(?!\s*\.)", r"(&mut self.\1)", t)
+        ne += k
+        for proj, enum in getattr(self, "proj_enums", {}).items():
+            t, k = re.subn(r"\b%s::" % re.escape(proj), enum + "::", t)
+            ne += k
+        while True:
+            m = mask(t)
+            mm = re.search(r"\bself\.as_mut\(\)\s*\.set\s*\(|\(&mut self\.([A-Za-z_][A-Za-z0-9_]*)\)\s*\.set\s*\(", m)
+            if not mm:
+                break
+            pc = match_close(m, mm.end() - 1)
+            lhs = "*self" if mm.group(1) is None else "self." + mm.group(1)
+            t = t[:mm.start()] + lhs + " = " + t[mm.end():pc] + t[pc + 1:]
+            ne += 1
+        bad = re.search(r"\bthis\b", mask(t)) or re.search(r"\.project(?:_replace|_ref)?\(", mask(t))
+        if bad:
+            snippet = re.sub(r"\s+", " ", t[max(0, bad.start() - 40):bad.end() + 40])
+            raise Unsupported("unsupported construct: pin projection outside R6/R6e (project_replace / projection of an expression) near `%s` in %s" % (snippet, self.what))
         self.t = t
         self.note("R6", n)
+        self.note("R6e", ne)
 
     # R12 ------------------------------------------------------------
     def r12_phantom_fn(self):
@@ -939,6 +1015,7 @@ def emit_fn(u: Unit, fpath, impl_pat, name, spec: FnSpec, reach: bool, mutate):
     u.fn_has_hints[key] = bool(spec.before or spec.after or spec.exit.strip())
     rw = Rewriter(text, what)
     rw.unpinned = set(x.strip() for x in spec.opts.get("unpinned", "").split(",") if x.strip())
+    rw.proj_enums = proj_types_of(src)
     try:
         t = rw.common()
     except Unsupported as e:
@@ -1030,6 +1107,14 @@ def emit_fn(u: Unit, fpath, impl_pat, name, spec: FnSpec, reach: bool, mutate):
     u.items.append({"kind": "fn", "name": name, "impl": header, "file": fpath, "rewrites": rw.applied,
                     "sha": hashlib.sha256(text.encode()).hexdigest()[:12],
                     "contracted": bool(spec.spec.strip()), "emitted_name": spec.opts.get("as", name)})
+
+
+def proj_types_of(src) -> dict:
+    """`#[pin_project(project = XProj)] enum X` in the file -> {XProj: X} (used by R6e)"""
+    res = {}
+    for mm in re.finditer(r"#\[pin_project\(\s*project\s*=\s*([A-Za-z_][A-Za-z0-9_]*)[^\]]*\)\]\s*(?:pub(?:\([^)]*\))?\s+)?(?:enum|struct)\s+([A-Za-z_][A-Za-z0-9_]*)", src.src):
+        res[mm.group(1)] = mm.group(2)
+    return res
 
 
 def fn_key(header, emitted_name: str) -> str:
